@@ -72,6 +72,10 @@ func (p *FullIntraRequest) Unmarshal(rawPacket []byte) error {
 		return errBadLength
 	}
 
+	if len(rawPacket) < (headerLength + firOffset) {
+		return errPacketTooShort
+	}
+
 	p.SenderSSRC = binary.BigEndian.Uint32(rawPacket[headerLength:])
 	p.MediaSSRC = binary.BigEndian.Uint32(rawPacket[headerLength+ssrcLength:])
 	for i := headerLength + firOffset; i < (headerLength + int(h.Length*4)); i += 8 {
